@@ -238,6 +238,8 @@ pub enum Barrier {
     Bbw(u32, u32),
     Fb(Option<u32>, u32),
     Fbw(Option<u32>, u32),
+    /// `Gc<RefLock<CellBody>>::borrow_mut(mc)` on a `leafcell` + a write of its plain value
+    CellSet(u32),
 }
 
 /// The route by which a slot of an allocated object is written.  `Write` / `Raw` / `Stb` exist for
@@ -307,10 +309,14 @@ pub enum Kind {
     /// 3 slots held behind a `Box<dyn DynSlots<'gc>>` whose `Collect` impl comes from
     /// `dyn_collect!`: every pointer is traced through the `DynCollect` adapter
     DynNode,
+    /// `Gc<RefLock<CellBody>>`: the whole value is a pointer-free lock (`NEEDS_TRACE = false`), no
+    /// slots; written through `Gc<RefLock<T>>::borrow_mut` (`barrier cellset p`: for the collector a
+    /// backward barrier on a non-tracing object)
+    LeafCell,
 }
 
 impl Kind {
-    pub const ALL: [Kind; 6] = [Kind::Node, Kind::Leaf, Kind::RefNode, Kind::LockCell, Kind::OnceCell, Kind::DynNode];
+    pub const ALL: [Kind; 7] = [Kind::Node, Kind::Leaf, Kind::RefNode, Kind::LockCell, Kind::OnceCell, Kind::DynNode, Kind::LeafCell];
     pub fn name(self) -> &'static str {
         match self {
             Kind::Node => "node",
@@ -319,6 +325,7 @@ impl Kind {
             Kind::LockCell => "lockcell",
             Kind::OnceCell => "oncecell",
             Kind::DynNode => "dynnode",
+            Kind::LeafCell => "leafcell",
         }
     }
     pub fn of_leaf(leaf: bool) -> Kind {
@@ -327,7 +334,7 @@ impl Kind {
     pub fn nslots(self) -> usize {
         match self {
             Kind::Node | Kind::RefNode | Kind::DynNode => 3,
-            Kind::Leaf => 0,
+            Kind::Leaf | Kind::LeafCell => 0,
             Kind::LockCell | Kind::OnceCell => 1,
         }
     }
@@ -346,7 +353,7 @@ impl Kind {
     pub fn paths(self) -> &'static [Path] {
         match self {
             Kind::Node | Kind::DynNode => &[Path::Write, Path::Raw, Path::Stb],
-            Kind::Leaf => &[],
+            Kind::Leaf | Kind::LeafCell => &[],
             Kind::RefNode => &[Path::Write, Path::Raw, Path::Stb, Path::BorrowMut, Path::TryBorrowMut, Path::Unlock],
             Kind::LockCell => &[Path::Write, Path::Raw, Path::Stb, Path::LockSet, Path::Unlock],
             Kind::OnceCell => &[Path::Raw, Path::OnceSet, Path::GetOrInit],
@@ -429,6 +436,7 @@ impl fmt::Display for Op {
             Op::Barrier(Barrier::Bbw(p, c)) => write!(f, "barrier bbw {p} {c}"),
             Op::Barrier(Barrier::Fb(p, c)) => write!(f, "barrier fb {} {c}", opt(p)),
             Op::Barrier(Barrier::Fbw(p, c)) => write!(f, "barrier fbw {} {c}", opt(p)),
+            Op::Barrier(Barrier::CellSet(p)) => write!(f, "barrier cellset {p}"),
             Op::Store { path, p, i, v } => write!(f, "store {} {p} {i} {}", path.name(), show_slot(v)),
             Op::RootStore { i, v } => write!(f, "rootstore {i} {}", show_slot(v)),
             Op::DropArena => write!(f, "drop"),
@@ -487,6 +495,7 @@ pub fn parse_op(ws: &[&str]) -> Option<Op> {
         ["isdropped", p] => Op::IsDropped(p.parse().ok()?),
         ["isdead", p] => Op::IsDead(parse_sp(p)?),
         ["resurrect", p] => Op::Resurrect(parse_sp(p)?),
+        ["barrier", "cellset", p] => Op::Barrier(Barrier::CellSet(p.parse().ok()?)),
         ["barrier", "bb", p, c] => Op::Barrier(Barrier::Bb(p.parse().ok()?, popt(c)?)),
         ["barrier", "bbw", p, c] => Op::Barrier(Barrier::Bbw(p.parse().ok()?, c.parse().ok()?)),
         ["barrier", "fb", p, c] => Op::Barrier(Barrier::Fb(popt(p)?, c.parse().ok()?)),
